@@ -219,6 +219,12 @@ def analyse_checks(events):
             if bad_ref:
                 invalid.append((e, bad_ref))
                 continue
+            # the round trip must start from the state the sub-step actually produces: nothing may
+            # change the stepped object between taking the copy and the end of the function (or loop body) that performs the check
+            late = [b for b in block[jy + 1 :] if b.obj == x and b.kind in ("update", "flow", "retract", "project") and b.stack[: len(e.stack)] == e.stack]
+            if late:
+                invalid.append((e, f"the stepped state is still changed after the round-trip copy is taken ({late[0].kind} in {late[0].func}): the check runs the backward sub-step from an intermediate state (e.g. an unprojected momentum), not from the state a genuinely reversed step starts from, so it can pass although the returned state does not reverse"))
+                continue
             # the backward solve must start from what a genuinely reversed step has available (the
             # forward-stepped value), not from information about the point it is meant to recover
             seeded = [b for b in back_impl if b.kind == "update" and b.info.get("guess", "current") != "current"]
